@@ -29,8 +29,8 @@ def main():
     cases = []
     for d in sorted(glob.glob(os.path.join(VERIF, 'seeded', '*', 'patch.diff'))):
         sid = os.path.basename(os.path.dirname(d))
-        if sid.startswith('benign'):
-            continue
+        if sid.startswith('benign') or sid.endswith('_out_of_scope'):
+            continue        # correct rewrites (sim/selftest.py --expect-clean) / changes judged outside the property
         prop = 'c10' if '_c10_' in sid else 'c19'
         cases.append((sid, prop, d))
     if a.mutants:
